@@ -454,8 +454,10 @@ func child(a lib.Args) {
 			switch l[0] {
 			case "srv":
 				d.runSrv(l[1], parseSteps(l[2]))
-			case "srv.scmpauth":
-				d.runSrvKind("srv.scmpauth", l[1], parseSteps(l[2]))
+			case "srv.scmpauth", "srv.tailmac":
+				d.runSrvKind(l[0], l[1], parseSteps(l[2]))
+			case "cli.tailmac":
+				d.replayCli("cli.tailmac", l[1], l[2])
 			case "scion.consts", "scion.authopt":
 				emitConsts(lib.NewRng(a.Seed ^ 0x636f6e73))
 			case "srv.probe":
@@ -501,6 +503,38 @@ func child(a lib.Args) {
 	for _, s := range d.probes {
 		runProbe("nt,unknown-path-type,mutated", []step{s})
 	}
+	// kind srv.tailmac: a genuine authenticated request, then the same datagram with a forged
+	// request spliced in front of its L4 part (the authenticator's MAC matches the TAIL of the
+	// datagram, the L4 part that is parsed and served is the forged one)
+	rt := r.Fork()
+	ntm := 60
+	if a.Tier == "thorough" {
+		ntm = 600
+	}
+	for i := 0; i < ntm && !d.lost; {
+		tags := tagset{"nt": true, "spliced-l4": true}
+		listener := rt.Intn(2)
+		h := d.genSpec(rt, listener, tags)
+		h.payload = ntpRequest(rt, 0)
+		addAuth(rt, h, lib.Pick(rt, 0, 0, 0, 8, 10), tagset{})
+		h.hbh = false
+		raw, err := h.build()
+		if err != nil || probeCandidate(raw) {
+			continue
+		}
+		sp := spliceTail(raw, ntpRequest(rt, 0))
+		if sp == nil {
+			continue
+		}
+		i++
+		sender := rt.Intn(nSenders)
+		steps := []step{{listener: listener, sender: sender, raw: sp}}
+		if rt.Bool() {
+			steps = []step{{listener: listener, sender: sender, raw: raw}, {listener: listener, sender: sender, raw: sp}}
+			tags["genuine-first"] = true
+		}
+		d.runSrvKind("srv.tailmac", tags.String(), steps)
+	}
 	nf := 120
 	if a.Tier == "thorough" {
 		nf = 1200
@@ -537,6 +571,7 @@ func child(a lib.Args) {
 		}
 		d.runSrvKind("srv.scmpauth", tags.String(), []step{{listener: listener, sender: rsc.Intn(nSenders), raw: raw}})
 	}
+	d.runTailmacCli(r.Fork(), nCli/10)
 	rc := r.Fork()
 	d.runCliAll(rc, nCli, a.Tier)
 }
